@@ -869,7 +869,10 @@ def _finalize_parse_info(text, nodes, pos, fullparse):
 
     for node in visit(nodes):
         pos_info = node._metadata.position_info
-        if pos_info:
+
+        # Skip the objects that were finalized already. (The result may contain
+        # objects from an earlier or nested parse.)
+        if pos_info and not isinstance(pos_info, _PositionInfo):
             start, end = pos_info
             end -= 1
             node._metadata.position_info = _PositionInfo(
